@@ -40,19 +40,19 @@ fn bincode_opts() -> impl bincode::Options + Copy {
     bincode::DefaultOptions::new().with_fixint_encoding().allow_trailing_bytes()
 }
 
-enum Byte {
+pub(crate) enum Byte {
     Bin(Bridge<App>),
     Json(BridgeWithSerializer<App>),
 }
 
 impl Byte {
-    fn decode(&self, bytes: &[u8]) -> Result<Vec<BridgeRequest<EffectFfi>>, String> {
+    pub(crate) fn decode(&self, bytes: &[u8]) -> Result<Vec<BridgeRequest<EffectFfi>>, String> {
         match self {
             Byte::Bin(_) => bincode_opts().deserialize(bytes).map_err(|e| format!("returned requests do not decode: {e}")),
             Byte::Json(_) => serde_json::from_slice(bytes).map_err(|e| format!("returned requests do not decode: {e}")),
         }
     }
-    fn event(&self, e: &Event) -> Result<Vec<BridgeRequest<EffectFfi>>, String> {
+    pub(crate) fn event(&self, e: &Event) -> Result<Vec<BridgeRequest<EffectFfi>>, String> {
         match self {
             Byte::Bin(b) => self.decode(&b.process_event(&bincode_opts().serialize(e).unwrap()).map_err(|e| e.to_string())?),
             Byte::Json(b) => {
@@ -63,7 +63,7 @@ impl Byte {
             }
         }
     }
-    fn respond(&self, id: u32, v: &Out) -> Result<Result<Vec<BridgeRequest<EffectFfi>>, String>, String> {
+    pub(crate) fn respond(&self, id: u32, v: &Out) -> Result<Result<Vec<BridgeRequest<EffectFfi>>, String>, String> {
         let raw = match self {
             Byte::Bin(b) => b.handle_response(id, &bincode_opts().serialize(v).unwrap()).map_err(|e| e.to_string()),
             Byte::Json(b) => {
@@ -78,7 +78,7 @@ impl Byte {
         }
     }
     /// raw entry points (C12): Ok(Err(_)) = the bridge rejected the input
-    fn event_bytes(&self, bytes: &[u8]) -> Result<Result<Vec<BridgeRequest<EffectFfi>>, String>, String> {
+    pub(crate) fn event_bytes(&self, bytes: &[u8]) -> Result<Result<Vec<BridgeRequest<EffectFfi>>, String>, String> {
         let raw = match self {
             Byte::Bin(b) => b.process_event(bytes).map_err(|e| e.to_string()),
             Byte::Json(b) => {
@@ -91,7 +91,7 @@ impl Byte {
             Ok(bytes) => Ok(Ok(self.decode(&bytes)?)),
         }
     }
-    fn respond_bytes(&self, id: u32, bytes: &[u8]) -> Result<Result<Vec<BridgeRequest<EffectFfi>>, String>, String> {
+    pub(crate) fn respond_bytes(&self, id: u32, bytes: &[u8]) -> Result<Result<Vec<BridgeRequest<EffectFfi>>, String>, String> {
         let raw = match self {
             Byte::Bin(b) => b.handle_response(id, bytes).map_err(|e| e.to_string()),
             Byte::Json(b) => {
@@ -104,7 +104,7 @@ impl Byte {
             Ok(bytes) => Ok(Ok(self.decode(&bytes)?)),
         }
     }
-    fn view(&self) -> Result<Vec<Event>, String> {
+    pub(crate) fn view(&self) -> Result<Vec<Event>, String> {
         match self {
             Byte::Bin(b) => bincode_opts().deserialize(&b.view().map_err(|e| e.to_string())?).map_err(|e| format!("view does not decode: {e}")),
             Byte::Json(b) => {
@@ -374,6 +374,12 @@ impl Host {
             Err(_) => Ok(None),
             Ok(reqs) => Ok(Some(Obs { effects: self.absorb_bytes(reqs)?, resolve_ok: Some(true) })),
         }
+    }
+    /// C12: offer raw bytes as the response to an id that names no outstanding request (a
+    /// notification, an id never handed out, an answered one-shot). Ok(true) = the bridge accepted it.
+    pub fn respond_bytes_to_id(&mut self, id: u32, bytes: &[u8]) -> Result<bool, String> {
+        let Inner::Byte(b) = &self.inner else { return Err("driver error: raw bytes need a byte host".into()) };
+        Ok(b.respond_bytes(id, bytes)?.is_ok())
     }
     pub fn is_json(&self) -> bool {
         matches!(self.inner, Inner::Byte(Byte::Json(_)))
